@@ -541,6 +541,31 @@ def directed_runs(ctx):
         if exc is not None:
             ctx.fail("spectral_layout:raises:connected", "%s: %s" % (type(exc).__name__, exc), case); continue
         oracle_connected(ctx, "spectral_layout", G, dim, E, fb, case)
+    # strongly heterogeneous degrees: sqrt(deg) is far from the constant vector, so the trivial eigenvector of the NORMALISED Laplacian
+    # must be recognised by its direction sqrt(deg), not by "constant sign / constant entries" (log-normal vertex masses; a kNN-like
+    # random graph plus one very heavy edge)
+    for gi, (n, dim, style) in enumerate(((14, 2, "masses"), (20, 1, "masses"), (24, 3, "masses"), (18, 2, "heavy_edge"), (30, 2, "heavy_edge"), (16, 1, "heavy_edge"))):
+        rs_ = np.random.RandomState(300 + gi)
+        W = rs_.uniform(0.05, 1.0, size=(n, n)) * (rs_.random_sample((n, n)) < 0.45)
+        W = np.triu(W, 1)
+        for a_ in range(n - 1):
+            if W[a_, a_ + 1] == 0: W[a_, a_ + 1] = rs_.uniform(0.05, 1.0)
+        A = W + W.T
+        if style == "masses":
+            mass = np.exp(rs_.normal(size=n) * 2.6)
+            A = A * mass[:, None] * mass[None, :]
+            A = A / A.max()
+        else:
+            i_, j_ = 0, n // 2
+            A[i_, j_] = A[j_, i_] = 1e3
+        G = sp.csr_matrix(A)
+        for fn in ("spectral_layout", "tswspectral_layout"):
+            case = graph_case(G, dim, fn=fn, kind="heterogeneous_degrees_" + style, seed=0, kwargs={})
+            E, fb, exc = call_layout(fn, None, G, dim, 0)
+            ctx.tag(("directed", "hetero", gi, fn), ["directed_heterogeneous_degrees"])
+            if exc is not None:
+                ctx.fail("%s:raises:connected" % fn, "%s: %s" % (type(exc).__name__, exc), case); continue
+            oracle_connected(ctx, fn, G, dim, E, fb, case)
     deg = dict(runs=0, multiplicity_missed=0)
     for n in (9, 10, 12, 20):
         G = unit_ring(n)
